@@ -1,18 +1,23 @@
 import Arimaa.Props.C09
 import Arimaa.Lemmas.RsAgreeStep
+import Arimaa.Gen.Bridge.GameState_take_action
+import Arimaa.Gen.Bridge.GameState_valid_placement
+import Arimaa.Gen.Bridge.PieceBoardState_placement_bit
 
 /-!
 # C09 — the property at the level of the REGENERATED code
 
 `Gen/Rs.lean` is written by `tools/rs2lean2.py` from the current text of engine.rs / zobrist.rs on every
-run; `Lemmas/RsAgree*.lean` prove that each regenerated function equals
-`Res.guard (hand panic guard) (hand total function)`.  This file puts the agreement theorems of the
-functions C09 rests on into the property's proof closure and restates them as one named obligation
-(`C09_code_agrees`), plus corollaries that speak about the regenerated functions directly.  A change of
-the Rust text of one of these functions breaks an obligation here without any test having to find the input.
+run.  `Gen/Bridge/<fn>.lean` (generated) proves `@Rs.fn = @RsBase.fn` — the current text against the
+baseline text — and `Lemmas/RsAgree*.lean` prove that each baseline function equals
+`Res.guard (hand panic guard) (hand total function)`.  This file puts both, for the functions C09 rests
+on, into the property's proof closure and restates them as one named obligation (`C09_code_agrees`) about
+the CURRENT functions, plus corollaries that speak about them directly.  A change of the Rust text of one
+of these functions that alters behaviour breaks an obligation here without any test having to find the input.
+(written by tools/mkrprops.py)
 -/
 namespace Arimaa
-open Gen GameState Arimaa.Gen.Rs Arimaa.Rt
+open Gen GameState Arimaa.Gen.Rs Arimaa.Rt Arimaa.Gen.Bridge
 
 theorem C09_value_of_ok {α : Type} {x : Res α} {p : Bool} {v w : α} (h : x = Res.guard p v) (hx : x = .ok w) :
     p = false ∧ w = v := by
@@ -20,12 +25,14 @@ theorem C09_value_of_ok {α : Type} {x : Res α} {p : Bool} {v w : α} (h : x = 
   obtain ⟨hp, hv⟩ := Res.guard_eq_ok.mp hx
   exact ⟨hp, hv.symm⟩
 
-/-- the agreement theorems C09 rests on, as one obligation -/
+/-- the agreement theorems C09 rests on, about the CURRENT functions, as one obligation -/
 theorem C09_code_agrees :
     (∀ (s : GameState) (a : Action), GameState_take_action s a = Res.guard (s.takeActionPanics a) (s.takeAction a)) ∧
     (∀ s : GameState, GameState_valid_placement s = s.validPlacement) ∧
     (∀ b : Board, PieceBoardState_placement_bit b = Res.guard b.placementBitPanics b.placementBit) :=
-  ⟨RsAgree.take_action_eq, RsAgree.valid_placement, RsAgree.placement_bit⟩
+  ⟨(by simp only [bridge_GameState_take_action]; exact RsAgree.take_action_eq),
+   (by simp only [bridge_GameState_valid_placement]; exact RsAgree.valid_placement),
+   (by simp only [bridge_PieceBoardState_placement_bit]; exact RsAgree.placement_bit)⟩
 
 
 end Arimaa
